@@ -123,7 +123,9 @@ def wcmatch_vs_spec(item):
 class _Rec(WM.WcMatch):
     """records hook invocations; kills at the k-th hook invocation; optionally raises at the r-th"""
 
-    def on_init(self, kill_at=None, raise_at=None, skip_value=None, error_value=None):
+    def on_init(self, kill_at=None, raise_at=None, skip_value=None, error_value=None, kill_in_init=False):
+        if kill_in_init:
+            self.kill()          # kill() before the iteration starts, from the very first hook
         self.log, self.kill_at, self.raise_at, self.step = [], kill_at, raise_at, 0
         self.skip_value, self.error_value, self.resets = skip_value, error_value, 0
         self.rets = []
@@ -256,6 +258,9 @@ def kill_points(item):
                         w2.kill()
                         if w2.match() != []:
                             bad.append(('kill-before-start-still-yields', ''))
+                        w3 = _Rec(t.root, pattern, flags=flags, kill_in_init=True)
+                        if not w3.is_aborted() or w3.match() != [] or list(w3.imatch()) != []:
+                            bad.append(('kill-from-the-on_init-hook-is-lost', f'is_aborted={w3.is_aborted()}'))
                     elif got != full[:j] and j <= len(full):
                         bad.append(('kill-between-yields-yields-more', f'j={j}: {len(got)} items'))
                 out.append(dict(base, bad=bad[:6], n=n, hooks=n))
